@@ -52,6 +52,20 @@ def observe(tag, j, g, rng, n_orient, explicit=None):
                 S.add_simplex(m, idx=g.edge(100 + k) if k % 2 else g.edge(3 + 4 * k))
             else:
                 S.add_simplex(m)
+    # a complex with a past: a refused addition, and the removal of a simplex (with everything above it)
+    with warnings.catch_warnings():
+        warnings.simplefilter("ignore")
+        if rng.random() < 0.3 and len(order) >= 2:
+            try:
+                S.add_simplex([g.node(order[0]), g.node(order[1]), None])
+            except Exception:  # noqa: BLE001
+                pass
+        if rng.random() < 0.4 and S.num_edges:
+            low = sorted(S.edges, key=lambda e: (len(S._edge[e]), str(e)))
+            try:
+                S.remove_simplex_id(low[rng.randrange(min(3, len(low)))])
+            except Exception:  # noqa: BLE001
+                pass
     # the complex under test may be a copy / a constructor copy of the one that was built, and the one
     # that was built may be edited afterwards: the complex under test is still the complex described
     how = rng.choice(["built", "built", "copy", "constructor", "pickle"])
